@@ -103,8 +103,9 @@ def _classify(TokenTypes, tok) -> tuple[str, str]:
 	return ('op', tok.string)
 
 
-def _check_munch(cases: list[dict]) -> dict:
-	"""TokMunch: the lexer's final state for every text - the tokens of a supported text are Python's (maximal munch)"""
+def _check_munch(args) -> dict:
+	"""TokMunch / TokQuote: the lexer's final state for every text - the tokens of a supported text are Python's"""
+	cases, clause, tile_all = args
 	from rogw.tranp.implements.syntax.tranp.token import TokenDefinition, TokenTypes
 	from rogw.tranp.implements.syntax.tranp.tokenizer import Lexer, Tokenizer
 	tokenizer = Tokenizer()
@@ -112,12 +113,13 @@ def _check_munch(cases: list[dict]) -> dict:
 	failures, machinery, supported, drift = [], [], 0, []
 	for case in cases:
 		text = case['text']
-		layout = {'munch': True}
-		try:
-			failures += _tiling(lexer, TokenTypes, text, layout)
-		except Exception as e:
-			failures.append({'clause': 'RoundTrip', 'detail': f'the lexer raises {type(e).__name__}: {str(e)[:80]}', 'text': text, 'layout': layout})
-			continue
+		layout = {'model': clause}
+		if tile_all or case['supported']:
+			try:
+				failures += _tiling(lexer, TokenTypes, text, layout)
+			except Exception as e:
+				failures.append({'clause': 'RoundTrip', 'detail': f'the lexer raises {type(e).__name__}: {str(e)[:80]}', 'text': text, 'layout': layout})
+				continue
 		if not case['supported']:
 			continue
 		supported += 1
@@ -138,13 +140,13 @@ def _check_munch(cases: list[dict]) -> dict:
 		try:
 			toks = tokenizer.parse(text)
 		except Exception as e:
-			failures.append({'clause': 'MaximalMunch', 'detail': f'{type(e).__name__}: {str(e)[:100]}', 'text': text, 'layout': layout})
+			failures.append({'clause': clause, 'detail': f'{type(e).__name__}: {str(e)[:100]}', 'text': text, 'layout': layout})
 			continue
 		got = [_classify(TokenTypes, t) for t in toks]
 		got_kinds = [('uminus', '-') if t.type == TokenTypes.Minus and t.string != '-' else c for t, c in zip(toks, got)]
 		if got != ref:
 			k = next((i for i, (a, b) in enumerate(zip(got, ref)) if a != b), min(len(got), len(ref)))
-			failures.append({'clause': 'MaximalMunch', 'detail': f'token #{k}: tranp {got[k:k + 3]} vs python {ref[k:k + 3]}', 'text': text, 'layout': layout})
+			failures.append({'clause': clause, 'detail': f'token #{k}: tranp {got[k:k + 3]} vs python {ref[k:k + 3]}', 'text': text, 'layout': layout})
 		elif got_kinds != model:
 			# which minus sign counts as the unary one is tranp's own convention: C13 leaves it open ("other than after
 			# a minus sign"), so a departure from the model is reported as a note; the own parser's sentences (C11) decide
@@ -254,6 +256,18 @@ def run(ctx: Ctx) -> int:
 	if len(munch_cases) < 7000:
 		raise Machinery(f'TokMunch emitted {len(munch_cases)} texts only')
 	ctx.log(f'TLC: TokMunch {munch.distinct} lexer states, MunchAgrees / Progress hold as coded, violated with single-character lookup; {len(munch_cases)} texts emitted')
+	# string literals: TokQuote.tla - parse_quote's search for the closing quote against Python's left-to-right rule
+	quote = tlc.run('TokQuote', 'TokQuote_4.cfg' if quick else 'TokQuote_6.cfg', workers=16, timeout=2400, heap='8g')
+	if not quote.ok:
+		raise Machinery(f'TLC: TokQuote.tla violates QuoteAgrees / Progress: {quote.out[-1200:]}')
+	qpinned = tlc.run('TokQuote', 'TokQuote_pinned.cfg', workers=4, timeout=600)
+	if qpinned.ok:
+		raise Machinery('TokQuote_pinned.cfg (search resumes behind the whole closing quote) satisfies QuoteAgrees: the invariant is vacuous')
+	emitted = tlc.run('TokQuote', 'TokQuote_emit4.cfg' if quick else 'TokQuote_emit6.cfg', workers=1, timeout=3000, heap='8g')
+	quote_cases = [json.loads(line) for line in emitted.lines('CASE ')]
+	if len(quote_cases) < 6000:
+		raise Machinery(f'TokQuote emitted {len(quote_cases)} texts only')
+	ctx.log(f'TLC: TokQuote {quote.distinct} lexer states, QuoteAgrees / Progress hold, violated when the search skips a whole closing quote; {len(quote_cases)} texts emitted')
 	seen = {}
 	for c in cases:
 		seen.setdefault(c['text'], c)
@@ -261,8 +275,12 @@ def run(ctx: Ctx) -> int:
 	nproc = 16
 	with ProcessPoolExecutor(max_workers=nproc) as ex:
 		results = list(ex.map(_check, [cases[i::nproc] for i in range(nproc)]))
-		mresults = list(ex.map(_check_munch, [munch_cases[i::nproc] for i in range(nproc)]))
-	results += mresults
+		mresults = list(ex.map(_check_munch, [(munch_cases[i::nproc], 'MaximalMunch', True) for i in range(nproc)]))
+		qresults = list(ex.map(_check_munch, [(quote_cases[i::nproc], 'LiteralEndsWherePythonEndsIt', False) for i in range(nproc)]))
+	results += mresults + qresults
+	q_supported = sum(r['supported'] for r in qresults)
+	if q_supported < len(quote_cases) // 10:
+		raise Machinery(f'only {q_supported} of {len(quote_cases)} string-literal texts are in the supported subset')
 	n_supported = sum(r['supported'] for r in mresults)
 	if n_supported < len(munch_cases) // 4:
 		raise Machinery(f'only {n_supported} of {len(munch_cases)} symbol-run texts are in the supported subset')
@@ -273,7 +291,7 @@ def run(ctx: Ctx) -> int:
 	if machinery:
 		raise Machinery(f'{len(machinery)} generated sources where spec and CPython disagree, e.g. {machinery[0]}')
 	failures = [f for r in results for f in r['failures']]
-	ctx.log(f'{len(cases)} distinct sources and {len(munch_cases)} symbol-run texts ({n_supported} supported) tokenized by tranp, CPython and the spec: {len(failures)} discrepancies')
+	ctx.log(f'{len(cases)} distinct sources and {len(munch_cases)} symbol-run texts ({n_supported} supported), {len(quote_cases)} string-literal texts ({q_supported} supported) tokenized by tranp, CPython and the spec: {len(failures)} discrepancies')
 	violations = []
 	groups: dict[str, list] = {}
 	for f in failures:
@@ -288,7 +306,9 @@ def run(ctx: Ctx) -> int:
 		'sources_tokenized': len(cases),
 		'symbol_run_texts': len(munch_cases),
 		'symbol_run_texts_supported': n_supported,
-		'lexer_states': munch.distinct,
+		'lexer_states': munch.distinct + quote.distinct,
+		'string_literal_texts': len(quote_cases),
+		'string_literal_texts_supported': q_supported,
 		'unary_minus_convention_departures': len(drift),
 		'three_way_agreement_spec_cpython': len(cases),
 		'exhaustive': True,
